@@ -50,6 +50,62 @@ func (Stock) TableName() string { return "stocks" }
 func toStock(r Rec) Stock   { return Stock{ID: uint(r.ID), Region: r.Name, Qty: r.Age, Note: r.Email} }
 func fromStock(s Stock) Rec { return Rec{ID: int64(s.ID), Name: s.Region, Age: s.Qty, Email: s.Note} }
 
+// Lot: a COMPOSITE primary key WITHOUT a prioritized member (no field named ID, nothing auto-incremented):
+// Schema.PrioritizedPrimaryField is nil. Same encoding: r_id = TenantID, r_name = Code, r_age = Qty, r_email = Note.
+type Lot struct {
+	TenantID uint   `gorm:"primaryKey;autoIncrement:false"`
+	Code     string `gorm:"primaryKey"`
+	Qty      int64
+	Note     string
+}
+
+func (Lot) TableName() string { return "lots" }
+
+func toLot(r Rec) Lot   { return Lot{TenantID: uint(r.ID), Code: r.Name, Qty: r.Age, Note: r.Email} }
+func fromLot(l Lot) Rec { return Rec{ID: int64(l.TenantID), Name: l.Code, Age: l.Qty, Email: l.Note} }
+
+// compOps: the four composite-key finishers on one of the two model types
+type compOps struct {
+	table     string
+	k1, k2    string // key columns
+	save      func(tx *gorm.DB, v Rec) (*gorm.DB, Rec)
+	saveSlice func(tx *gorm.DB, vs []Rec) *gorm.DB
+	create    func(tx *gorm.DB, v Rec) (*gorm.DB, Rec)
+	foc       func(tx *gorm.DB) (*gorm.DB, Rec)
+}
+
+func compOpsOf[T any](table, k1, k2 string, to func(Rec) T, from func(T) Rec) compOps {
+	return compOps{table: table, k1: k1, k2: k2,
+		save: func(tx *gorm.DB, v Rec) (*gorm.DB, Rec) {
+			d := to(v)
+			res := tx.Save(&d)
+			return res, from(d)
+		},
+		saveSlice: func(tx *gorm.DB, vs []Rec) *gorm.DB {
+			sl := make([]T, len(vs))
+			for i, v := range vs {
+				sl[i] = to(v)
+			}
+			return tx.Save(&sl)
+		},
+		create: func(tx *gorm.DB, v Rec) (*gorm.DB, Rec) {
+			d := to(v)
+			res := tx.Create(&d)
+			return res, from(d)
+		},
+		foc: func(tx *gorm.DB) (*gorm.DB, Rec) {
+			var d T
+			res := tx.FirstOrCreate(&d)
+			return res, from(d)
+		},
+	}
+}
+
+var compTypes = map[string]compOps{
+	"":    compOpsOf("stocks", "id", "region", toStock, fromStock),
+	"lot": compOpsOf("lots", "tenant_id", "code", toLot, fromLot),
+}
+
 // ---- JSON twin of the Coq terms -------------------------------------------------------
 
 // Rec: times are seconds after [base]; 0 = the zero time.Time; Del nil = NULL.
@@ -132,6 +188,9 @@ type Input struct {
 	// Composite: the step runs on the Stock table (composite key (id, region)); Tbl rows are Stocks in rowid
 	// order. Fin kinds: c_save | c_save_slice | c_create_oc | c_foc
 	Composite bool `json:"composite,omitempty"`
+	// CType: which composite-key model type: "" Stock{ID, Region} (ID is the prioritized member) | lot
+	// Lot{TenantID, Code} (no prioritized member)
+	CType string `json:"ctype,omitempty"`
 }
 type Obs struct {
 	Ret    Rec    `json:"ret"`
@@ -250,6 +309,8 @@ func openEnv(noReturning bool) *env {
 	lib.Must(err)
 	_, err = sqlDB.Exec(`CREATE TABLE stocks (id integer, region text, qty integer, note text, PRIMARY KEY (id, region))`)
 	lib.Must(err)
+	_, err = sqlDB.Exec(`CREATE TABLE lots (tenant_id integer, code text, qty integer, note text, PRIMARY KEY (tenant_id, code))`)
+	lib.Must(err)
 	// a SECOND unique index: e-mails starting with "u" are unique (ordinary e-mails never start with u)
 	_, err = sqlDB.Exec(`CREATE UNIQUE INDEX accts_uemail ON accts(email) WHERE email LIKE 'u%'`)
 	lib.Must(err)
@@ -313,19 +374,19 @@ func isWrite(q string) bool {
 type ctxMark struct{}
 
 // run executes one step on real gorm.
-func (e *env) restoreC(tbl []Rec) error {
-	if _, err := e.sql.Exec("DELETE FROM stocks"); err != nil {
+func (e *env) restoreC(c compOps, tbl []Rec) error {
+	if _, err := e.sql.Exec("DELETE FROM " + c.table); err != nil {
 		return err
 	}
 	for _, r := range tbl {
-		if _, err := e.sql.Exec("INSERT INTO stocks (id,region,qty,note) VALUES (?,?,?,?)", r.ID, r.Name, r.Age, r.Email); err != nil {
+		if _, err := e.sql.Exec("INSERT INTO "+c.table+" ("+c.k1+","+c.k2+",qty,note) VALUES (?,?,?,?)", r.ID, r.Name, r.Age, r.Email); err != nil {
 			return err
 		}
 	}
 	return nil
 }
-func (e *env) dumpC() ([]Rec, error) {
-	rows, err := e.sql.Query("SELECT id,region,qty,note FROM stocks ORDER BY rowid")
+func (e *env) dumpC(c compOps) ([]Rec, error) {
+	rows, err := e.sql.Query("SELECT " + c.k1 + "," + c.k2 + ",qty,note FROM " + c.table + " ORDER BY rowid")
 	if err != nil {
 		return nil, err
 	}
@@ -347,7 +408,12 @@ func (e *env) dumpC() ([]Rec, error) {
 // runC: one step on the composite-key table
 func runC(e *env, in Input) Obs {
 	var o Obs
-	if err := e.restoreC(in.Tbl); err != nil {
+	ct, ok := compTypes[in.CType]
+	if !ok {
+		o.Setup = "unknown composite type " + in.CType
+		return o
+	}
+	if err := e.restoreC(ct, in.Tbl); err != nil {
 		o.Setup = err.Error()
 		return o
 	}
@@ -362,23 +428,17 @@ func runC(e *env, in Input) Obs {
 		}
 	}
 	var res *gorm.DB
-	var dest Stock
+	var dest Rec
 	f := in.Fin
 	switch f.Kind {
 	case "c_save":
-		dest = toStock(*f.Val)
-		res = tx.Save(&dest)
+		res, dest = ct.save(tx, *f.Val)
 	case "c_save_slice":
-		sl := make([]Stock, len(f.Vals))
-		for i, v := range f.Vals {
-			sl[i] = toStock(v)
-		}
-		res = tx.Save(&sl)
+		res = ct.saveSlice(tx, f.Vals)
 	case "c_create_oc":
-		dest = toStock(*f.Val)
 		oc := clause.OnConflict{}
 		if f.Target {
-			oc.Columns = []clause.Column{{Name: "id"}, {Name: "region"}}
+			oc.Columns = []clause.Column{{Name: ct.k1}, {Name: ct.k2}}
 		}
 		switch f.Rule {
 		case "nothing":
@@ -388,21 +448,21 @@ func runC(e *env, in Input) Obs {
 		case "all":
 			oc.UpdateAll = true
 		}
-		res = tx.Clauses(oc).Create(&dest)
+		res, dest = ct.create(tx.Clauses(oc), *f.Val)
 	case "c_foc":
-		tx = tx.Where(map[string]interface{}{"id": f.CID, "region": f.CRegion})
+		tx = tx.Where(map[string]interface{}{ct.k1: f.CID, ct.k2: f.CRegion})
 		if f.CAttrs != nil {
 			tx = tx.Attrs(map[string]interface{}{"note": *f.CAttrs})
 		}
 		if f.CAssign != nil {
 			tx = tx.Assign(map[string]interface{}{"qty": *f.CAssign})
 		}
-		res = tx.FirstOrCreate(&dest)
+		res, dest = ct.foc(tx)
 	default:
 		o.Setup = "unknown composite finisher " + f.Kind
 		return o
 	}
-	o.Ret = fromStock(dest)
+	o.Ret = dest
 	o.RA = res.RowsAffected
 	if res.Error != nil {
 		o.Err = res.Error.Error()
@@ -415,7 +475,7 @@ func runC(e *env, in Input) Obs {
 			}
 		}
 	}
-	t, err := e.dumpC()
+	t, err := e.dumpC(ct)
 	if err != nil {
 		o.Setup = err.Error()
 	}
@@ -1350,11 +1410,24 @@ func genUnique(r *lib.Rng, now int64) Input {
 }
 
 // genComposite draws one step on the composite-key table.
-func genComposite(r *lib.Rng, state []Rec, now int64) Input {
+func genComposite(r *lib.Rng, state []Rec, now int64, ctype string) Input {
 	val := func() Rec {
 		return Rec{ID: int64(1 + r.Intn(2)), Name: lib.Pick(r, []string{"eu", "us"}), Age: int64(r.Intn(9)), Email: lib.Pick(r, []string{"", "a", "b", "c"})}
 	}
-	in := Input{Tbl: append([]Rec(nil), state...), Now: now, Composite: true, NoReturn: r.Chance(1, 4)}
+	// zeroMember: one key member of the value is the zero value (0 / ""), the other one is kept — mostly one that
+	// stored rows carry (the stored rows themselves never have a zero-valued member: domain)
+	zeroMember := func(v *Rec) {
+		if len(state) > 0 && r.Chance(3, 4) {
+			row := state[r.Intn(len(state))]
+			v.ID, v.Name = row.ID, row.Name
+		}
+		if r.Bool() {
+			v.ID = 0
+		} else {
+			v.Name = ""
+		}
+	}
+	in := Input{Tbl: append([]Rec(nil), state...), Now: now, Composite: true, CType: ctype, NoReturn: r.Chance(1, 4)}
 	if r.Chance(1, 3) {
 		in.Chain = []Cel{sessionEl(r)}
 		in.Chain[0].Opt = ""
@@ -1362,6 +1435,9 @@ func genComposite(r *lib.Rng, state []Rec, now int64) Input {
 	switch r.Intn(4) {
 	case 0:
 		v := val()
+		if r.Chance(2, 5) {
+			zeroMember(&v)
+		}
 		in.Fin = Fin{Kind: "c_save", Val: &v}
 	case 1:
 		var vals []Rec
@@ -1375,6 +1451,12 @@ func genComposite(r *lib.Rng, state []Rec, now int64) Input {
 			seen[k] = true
 			vals = append(vals, v)
 		}
+		if r.Chance(1, 5) {
+			zeroMember(&vals[0])
+			if len(vals) > 1 && vals[1].ID == vals[0].ID && vals[1].Name == vals[0].Name {
+				vals = vals[:1]
+			}
+		}
 		in.Fin = Fin{Kind: "c_save_slice", Vals: vals}
 	case 2:
 		v := val()
@@ -1387,6 +1469,9 @@ func genComposite(r *lib.Rng, state []Rec, now int64) Input {
 			f.Cols = lib.Pick(r, [][]string{{"qty"}, {"note"}, {"qty", "note"}, {"note", "qty"}})
 		default:
 			f.Rule, f.Target = "all", r.Chance(1, 3) // mostly the DEFAULT conflict target (all primary fields)
+		}
+		if r.Chance(1, 5) {
+			zeroMember(f.Val)
 		}
 		in.Fin = f
 	default:
@@ -1467,7 +1552,24 @@ func shape(in Input, o Obs) string {
 	sb.WriteString(in.Fin.Kind)
 	if in.Composite {
 		f := in.Fin
-		fmt.Fprintf(&sb, "|%s%v%v|", f.Rule, f.Target, f.Cols)
+		zm := func(v Rec) string {
+			switch {
+			case v.ID == 0 && v.Name == "":
+				return "z00"
+			case v.ID == 0:
+				return "z0k"
+			case v.Name == "":
+				return "zk0"
+			}
+			return ""
+		}
+		fmt.Fprintf(&sb, "%s|%s%v%v|", in.CType, f.Rule, f.Target, f.Cols)
+		if f.Val != nil {
+			sb.WriteString(zm(*f.Val))
+		}
+		for _, v := range f.Vals {
+			sb.WriteString(zm(v))
+		}
 		if f.Val != nil {
 			sb.WriteString(compositeCollision(in, *f.Val))
 		}
@@ -1610,6 +1712,10 @@ func main() {
 		}
 		out.Count("finisher", fk)
 		if in.Composite {
+			out.Count("composite_type", map[string]string{"": "Stock (prioritized member ID)", "lot": "Lot (no prioritized member)"}[in.CType])
+			if v := in.Fin.Val; v != nil && (v.ID == 0 || v.Name == "") {
+				out.Count("composite_zero_member", in.Fin.Kind+":"+compositeCollision(in, *v))
+			}
 			if in.Fin.Val != nil {
 				out.Count("composite_collision", in.Fin.Kind+":"+compositeCollision(in, *in.Fin.Val))
 			}
@@ -1714,12 +1820,18 @@ func main() {
 					cstate = append(cstate, Rec{ID: k[0].(int64), Name: k[1].(string), Age: int64(1 + r.Intn(8)), Email: lib.Pick(r, []string{"", "a", "b"})})
 				}
 			}
+			ctype := lib.Pick(r, []string{"", "lot"}) // with (Stock.ID) or without (Lot) a prioritized key member
 			for s, steps := 0, r.Range(5, 9); s < steps && n < budget; s++ {
-				in := genComposite(r, cstate, int64(10*(s+2)))
+				in := genComposite(r, cstate, int64(10*(s+2)), ctype)
 				o := add("composite-key", in)
 				n++
 				if o.Setup == "" {
-					cstate = o.Tbl
+					cstate = cstate[:0:0]
+					for _, row := range o.Tbl { // a row stored with a zero-valued key member leaves the history (domain)
+						if row.ID != 0 && row.Name != "" {
+							cstate = append(cstate, row)
+						}
+					}
 				}
 			}
 			continue
